@@ -12,6 +12,7 @@ pub mod h_expr;
 pub mod h_content;
 pub mod h_plat;
 pub mod h_locks;
+pub mod h_dm;
 
 pub use vnd::*;
 
@@ -25,5 +26,6 @@ pub fn run_harness(name: &str) -> bool {
     if h_content::run(name) { return true; }
     if h_plat::run(name) { return true; }
     if h_locks::run(name) { return true; }
+    if h_dm::run(name) { return true; }
     false
 }
